@@ -54,10 +54,17 @@ def run(ctx):
     ctx.floor("R-WHO", "owners of bytes_written", len(set(writers) & allowed), 2)
     counted_sink(ctx, F)
     # (d) save(): BufWriter finalisation is propagated and follows save_internal
-    for name in ("Document::save", "IncrementalDocument::save"):
+    # ... in the two path-taking entry points, and wherever else in the save scope a buffering writer is put in front of the sink
+    # (a BufWriter that is merely dropped swallows the failure of its last flush)
+    names_d = ["Document::save", "IncrementalDocument::save"]
+    for p_ in sorted(sc):
+        fn_ = F.canon_of(F.bodies[p_])
+        if fn_ not in names_d and "{closure" not in fn_ and lib.calls_named(F.bodies[p_], r"io::(BufWriter|LineWriter)::<W>::(new|with_capacity)$"):
+            names_d.append(fn_)
+    for name in names_d:
         b = F.fn(name)
-        bw = lib.calls_named(b, r"io::BufWriter::<W>::new$")
-        fin = [c for c in b.calls if re.search(r"io::BufWriter::<W>::into_inner$|io::Write::flush$", c.fn or "")]
+        bw = lib.calls_named(b, r"io::(BufWriter|LineWriter)::<W>::(new|with_capacity)$")
+        fin = [c for c in b.calls if re.search(r"io::(BufWriter|LineWriter)::<W>::into_inner$|io::Write::flush$", c.fn or "")]
         si = lib.calls_named(b, r"::save_internal$")
         ok = True
         how = "no BufWriter"
